@@ -1,25 +1,168 @@
 """Property table: DataReader sample cache rules (C18 history, C19 resource limits, C21 order, C25 filter)."""
 from ..props import prop
 
+_SHAPE = (
+    "Every obligation executes ONE real DataReaderEntity::<()>::add_reader_change (C19 writer side: ONE real "
+    "DataWriterEntity::write_w_timestamp) from a directly constructed pre-state and asserts the step contract plus the "
+    "invariants it assumed (inductive step). The *structure* of the pre-state is concrete per harness - exactly n stored "
+    "samples (n = 0, 1, 2, 3 are separate harnesses), both instance handles registered, instance_ownership empty (variants "
+    "with a full ownership table and with an unregistered instance exist in the thorough tier) - because, measured on this "
+    "code, a symbolic list length or a symbolic table entry doubles the formula and exhausts 12 GB; all *values* are "
+    "symbolic: instance (one of 2 handles), writer (one of 2), change kind (all 5), source timestamp, sample state and "
+    "generation counts of every stored sample, view/instance state of both instances, the incoming change, and the QoS "
+    "(KEEP_LAST depth 1..3 or KEEP_ALL, each resource limit in {1,2,3,unlimited}, minimum_separation).")
+
+_STUB = (
+    "The derived <InstanceHandle as PartialEq>::eq (a 16-byte memcmp loop that would force the global unwinding bound to 17 "
+    "and every list loop to be unrolled 17 times: no answer in 600 s) is replaced through kani::stub by a loop-free 128-bit "
+    "comparison; the harness c18_handle_eq_stub_is_equivalent runs the real eq and proves both agree on all 2^256 pairs; it is "
+    "part of every run of these properties.")
+
 _COMMON_BOUNDS = (
-    "one real add_reader_change from a directly constructed pre-state: <= 3 stored samples over 2 instance handles "
-    "and 2 writer guids, all 5 change kinds, source timestamps None or sec 0..4 x nanosec {0, 5*10^8}, symbolic "
-    "sample/view/instance states and generation counts 0..2; unwind 18")
+    "pre-state: exactly n stored samples, n in {1} (quick; C21 also 2) / {0,1,2,3} (thorough), over 2 instance handles and 2 writer "
+    "guids; all 5 change kinds; source timestamps None or sec 0..4 x nanosec {0, 5*10^8} (every order/equality relation of up to 4 "
+    "timestamps; C25 thorough additionally sec 0..2^30 x any nanosec); generation counts 0..2; KEEP_LAST depth 1..3 / KEEP_ALL; "
+    "resource limits in {1,2,3,unlimited}; one step; unwinding bound 6 (every list has <= 4 elements); SAT back end MiniSat "
+    "(CaDiCaL needs > 12 GB on these formulas)")
+
+_COMMON_OUTSIDE = (
+    "caches with more than 3 stored samples, more than 2 instances or writers; EXCLUSIVE ownership (C24); histories are covered "
+    "only through the asserted invariants (one inductive step), QoS constant over the history; the caller "
+    "(communication_methods.rs: instance-handle computation through DynamicData, SampleRejected status/listener bookkeeping - "
+    "a verbatim pass-through of the returned (handle, reason) into increment_sample_rejected_status) is not executed; "
+    "destructors; Vec reallocation (the pre-state vectors are allocated with their final capacity)")
+
+_ASSUME = [
+    "pre-state satisfies the representation invariant R1-R3 of support_reader.rs and the per-property invariant; all are re-asserted after the step",
+    "DataReaderQos::is_consistent() (the real predicate) holds; resource limits / history / destination order immutable after enable (check_immutability)",
+    "<InstanceHandle as PartialEq>::eq replaced by handle_eq_stub (equivalence proved by c18_handle_eq_stub_is_equivalent on every run)",
+]
+
+_LEVEL_NOTE = (
+    "trusted: Kani 0.68 / CBMC 6.11 / MiniSat 2.2.1, the pre-state constructors and <= 20-line oracles of "
+    "harness/incrate/support_reader.rs, the handle_eq stub (proved equivalent per run). Measured per obligation on the shared "
+    "16-core box: 1 stored sample 2-3 M SAT variables, 1.5-2.5 GB, 60-150 s unloaded (up to 800 s at load average 40); 2 samples "
+    "3-8 M variables, 2.5-3.5 GB; 3 samples 6.6-9 M variables, about 5 GB, 11 min unloaded.")
 
 prop(
     "C18",
+    ready=True,
     level="other",
-    explanation="placeholder",
-    bounds=_COMMON_BOUNDS,
-    outside="",
-    level_text="",
-    level_note="",
-    technique="Kani/CBMC symbolic execution of the real add_reader_change, one inductive step",
-    assumptions=[],
-    timeout={"quick": 600, "thorough": 1500},
-    mem_gb=12,
+    explanation=(
+        _SHAPE + " C18 oracle: the new sample is stored exactly once (last under BY_RECEPTION_TIMESTAMP); under KEEP_LAST a stored "
+        "sample is removed only when the instance already holds depth ALIVE samples and it is then the first stored (oldest) ALIVE "
+        "sample of that instance; every other sample is kept unchanged in its relative order; KEEP_ALL never removes; Rejected only "
+        "with a reason whose limit is reached and then nothing changes; NotAdded never; afterwards <= depth ALIVE samples per "
+        "instance, limits and representation invariant hold again. " + _STUB + " Finding KF-C18-1 (limit tests run before the "
+        "KEEP_LAST replacement, so a full instance with max_samples_per_instance == depth or max_samples reached is Rejected for "
+        "ever) is kept as a __known harness restricted to its trigger; every __rest harness assumes the negation."),
+    bounds=_COMMON_BOUNDS + "; quick: KEEP_LAST and KEEP_ALL with 1 stored sample; thorough: 0, 2, 3 samples, BY_SOURCE_TIMESTAMP, full "
+           "ownership table, change for an unregistered instance",
+    outside=_COMMON_OUTSIDE + "; 'depth samples' is checked in the implementation's convention (depth counts samples of kind ALIVE; "
+            "dispose/unregister markers and ALIVE_FILTERED samples are not bounded by depth); 'most recent received' is storage order, "
+            "which under BY_SOURCE_TIMESTAMP is source-timestamp order (C21)",
+    level_text="Bounded model checking (Kani/CBMC, SAT) of the real add_reader_change: one inductive step from every pre-state of the "
+               "bounded family that satisfies the asserted invariants; no sampling. Level 'other': bounded (<= 3 stored samples, 2 "
+               "instances), histories covered through the invariant only.",
+    level_note=_LEVEL_NOTE,
+    technique="Kani/CBMC symbolic execution of the real add_reader_change, one inductive step per pre-state structure",
+    assumptions=_ASSUME + ["ownership SHARED, time-based filter off (minimum_separation 0) in the C18 harnesses",
+                           "negation of the KF-C18-1 trigger in the __rest harnesses"],
+    timeout={"quick": 1500, "thorough": 3000},
+    mem_gb=10,
 )
-for _p in ("C19", "C21", "C25"):
-    prop(_p, level="other", explanation="placeholder", bounds=_COMMON_BOUNDS, outside="", level_text="", level_note="",
-         technique="Kani/CBMC symbolic execution of the real add_reader_change, one inductive step", assumptions=[],
-         timeout={"quick": 600, "thorough": 1500}, mem_gb=12)
+
+prop(
+    "C19",
+    ready=True,
+    level="other",
+    explanation=(
+        _SHAPE + " C19 reader oracle: afterwards the cache is within max_samples / max_instances / max_samples_per_instance; "
+        "Rejected(handle, reason) names the instance of the change and a reason whose limit is reached, and the sample list is "
+        "untouched; a change whose storing would exceed a limit is Rejected (never stored, never silently dropped). Counting "
+        "convention = the implementation's own (max_samples counts stored samples of kind ALIVE, max_samples_per_instance every "
+        "stored sample of the instance, max_instances the instances with a stored sample). Writer oracle "
+        "(DataWriterEntity<MockWriter>::write_w_timestamp takes the instance handle and the serialized payload directly, so no "
+        "DynamicData is executed): Err(OutOfResources) exactly when max_instances (new instance), max_samples_per_instance "
+        "(KEEP_ALL) or max_samples is reached; a refused write stores nothing (no sample, no sequence number, no transport "
+        "change, no instance); an accepted write records one sample, takes the next sequence number and hands exactly one change "
+        "to the transport writer. " + _STUB + " Finding KF-C19-1 (a refused write of a new instance leaves the instance "
+        "registered) is a __known harness restricted to its trigger; the writer __rest harnesses assume the negation."),
+    bounds=_COMMON_BOUNDS + "; writer: 0, 1 or 2 registered instances (+1 new) with 0..3 recorded samples each",
+    outside=_COMMON_OUTSIDE + "; the `instances` table of the reader is never pruned and also grows for a rejected change of a new "
+            "instance (observable through next_instance only; not counted as 'held instances' here); instance-state side effects of a "
+            "rejected change (update_state runs before the limit tests) belong to C22; writer: the KEEP_LAST removal of the oldest "
+            "sample and the blocking of reliable writers happen in writer_methods.rs behind DynamicData serialisation and are assumed "
+            "as a caller contract (fewer than depth samples on entry); which sequence number is stored inside the per-instance "
+            "VecDeque is not read back (reading the deque through its symbolic-capacity growth path exhausts the SAT back end); "
+            "dispose/unregister/register of the writer (DynamicData)",
+    level_text="Bounded model checking (Kani/CBMC, SAT) of the real add_reader_change and write_w_timestamp: one inductive step from "
+               "every pre-state of the bounded family; no sampling. Level 'other': bounded, histories through the invariant only.",
+    level_note=_LEVEL_NOTE + " Writer obligations: about 1 M variables, 70-120 s.",
+    technique="Kani/CBMC symbolic execution of the real add_reader_change / write_w_timestamp, one inductive step",
+    assumptions=_ASSUME + ["ownership SHARED, time-based filter off in the C19 reader harnesses",
+                           "writer: bookkeeping within the limits before the call, DataWriterQos::is_consistent(), lifespan infinite, "
+                           "KEEP_LAST caller contract, negation of the KF-C19-1 trigger in the __rest harnesses"],
+    timeout={"quick": 1500, "thorough": 3000},
+    mem_gb=10,
+)
+
+prop(
+    "C21",
+    ready=True,
+    level="other",
+    explanation=(
+        _SHAPE + " C21: destination order BY_SOURCE_TIMESTAMP; the pre-state list is sorted by source timestamp over ALL instances "
+        "(the insert position is searched over the whole list, so global sortedness is the inductive invariant that implies the "
+        "per-instance order the property asks for; removals by take/KEEP_LAST preserve it). Oracle after the step: samples of one "
+        "instance that carry a source timestamp are in non-decreasing order, and the whole list is still sorted (derived order of "
+        "Option<Time>, None first, which is what the implementation compares). " + _STUB + " Finding KF-C21-1 "
+        "(position(..).unwrap_or(0): a change newer than every stored sample is inserted at the FRONT, so in-order arrival 1, 2 is "
+        "stored as [2, 1]) is a __known harness restricted to its trigger (no remaining stored sample newer, at least one older); "
+        "the __rest harnesses assume the negation and cover insertion in the middle, at the front, equal and missing timestamps."),
+    bounds=_COMMON_BOUNDS + "; quick: KEEP_ALL with 1 and 2 stored samples (insert in the middle); thorough: 0 and 3 samples, KEEP_LAST "
+           "(eviction followed by insertion) with 1 and 2 samples",
+    outside=_COMMON_OUTSIDE + "; order among samples without a source timestamp (the property does not constrain it); the order in which "
+            "read/take present the stored list (storage order, C20)",
+    level_text="Bounded model checking (Kani/CBMC, SAT) of the real add_reader_change with BY_SOURCE_TIMESTAMP: one inductive step from "
+               "every sorted pre-state of the bounded family; no sampling. Level 'other': bounded, histories through the invariant only.",
+    level_note=_LEVEL_NOTE + " BY_SOURCE_TIMESTAMP obligations with KEEP_LAST (Vec::remove followed by Vec::insert at symbolic indices) "
+               "are the largest: 8 M variables with one stored sample.",
+    technique="Kani/CBMC symbolic execution of the real add_reader_change, one inductive step per pre-state structure",
+    assumptions=_ASSUME + ["ownership SHARED, time-based filter off; negation of the KF-C21-1 trigger in the __rest harnesses"],
+    timeout={"quick": 1500, "thorough": 3000},
+    mem_gb=10,
+)
+
+prop(
+    "C25",
+    ready=True,
+    level="other",
+    explanation=(
+        _SHAPE + " C25: minimum_separation symbolic, finite and > 0; the pre-state satisfies 'any two stored samples of one instance "
+        "that carry a source timestamp are >= minimum_separation apart'. Oracle (reference `a + sep <= b` on (sec, nanosec) pairs, "
+        "addition only; the implementation subtracts with the real Time/Duration arithmetic): the invariant holds again after the "
+        "step; a change at least minimum_separation away from every stored sample of its instance is never NotAdded; a filtered "
+        "change leaves the cache untouched. " + _STUB + " Findings: KF-C25-1 (only the closest EARLIER stored sample is compared: "
+        "an out-of-order change is accepted next to a later stored sample closer than minimum_separation) and KF-C25-2 (the filter "
+        "only knows samples still in the cache: after take() of the last sample the next one is accepted however close) are __known "
+        "harnesses; the __rest harnesses assume the negation of KF-C25-1, and KF-C25-2 is outside what one step from a cache "
+        "state can express (stated as assumption)."),
+    bounds=_COMMON_BOUNDS + "; minimum_separation in {0.5 s, 1 s, .., 2.5 s} (thorough wide-domain harness: any finite value in (0, 2^30 s) "
+           "with timestamps sec 0..2^30 x any nanosec); quick: KEEP_ALL with 1 stored sample; thorough: 0, 2, 3 samples, KEEP_LAST, "
+           "BY_SOURCE_TIMESTAMP",
+    outside=_COMMON_OUTSIDE + "; minimum_separation infinite or changed by set_qos during the history; samples that have left the cache "
+            "(taken, evicted by KEEP_LAST, removed with their writer) - exactly KF-C25-2; the KF-C25-2 harness uses a ghost timestamp "
+            "for the taken sample and an empty cache instead of executing the real take() in front of add_reader_change (both together: "
+            "out of memory at 12 GB during SSA conversion); timestamps with sec >= 2^30 (saturating arithmetic, C14)",
+    level_text="Bounded model checking (Kani/CBMC, SAT) of the real add_reader_change with the real Time/Duration arithmetic: one "
+               "inductive step from every separated pre-state of the bounded family; no sampling. Level 'other': bounded, histories "
+               "through the invariant only.",
+    level_note=_LEVEL_NOTE,
+    technique="Kani/CBMC symbolic execution of the real add_reader_change, one inductive step per pre-state structure",
+    assumptions=_ASSUME + ["ownership SHARED; minimum_separation finite, > 0 and constant over the history; deadline infinite",
+                           "negation of the KF-C25-1 trigger in the __rest harnesses; every earlier accepted sample of the instance within "
+                           "minimum_separation of the incoming change is still stored (negation of KF-C25-2)"],
+    timeout={"quick": 1500, "thorough": 3000},
+    mem_gb=10,
+)
